@@ -16,7 +16,7 @@
  * Invariant RB_INV: readi, writei < buf_len; a watched byte that is INRING lies in the cyclic
  * interval [readi, writei) and its slot still holds its value; two INRING watched bytes keep their order.
  *
- * buf_len is symbolic: 2..MAXLEN (quick 65536, thorough 2^31-1); indices anywhere, wrap included.
+ * buf_len is symbolic: 2..MAXLEN (2^31-1 in both tiers; was 65536 in the quick tier until seed C05-3); indices anywhere, wrap included.
  */
 #include <stdlib.h>
 #include <string.h>
